@@ -363,7 +363,9 @@ func (w *World) StopInst(i int, why string) {
 	in.App.VerifForget()
 	in.App = nil
 	in.H = nil
-	if in.Alive {
+	if in.Alive && why != "close" {
+		// the tear-down at the end of a run is not part of the history (how long a
+		// peer takes to leave the mesh depends on library internals)
 		w.H.AddEvent("stop", in.Name, why)
 	}
 	in.Alive = false
